@@ -319,7 +319,7 @@ def W5(ctx):
 
 
 def run(ctx):
-    g_state.run_all(ctx, ["S3", "S4", "S7", "S8"])
+    g_state.run_all(ctx, ["S3", "S4", "S7", "S8", "S9"])
     g_sync.run_all(ctx, ["Y1:notify,unpark"])
     W1(ctx)
     W2(ctx)
